@@ -289,6 +289,23 @@ CHECKS.update({
     ),
 })
 
+CHECKS.update({
+    "C19": (
+        "exploration",
+        "differential testing of pvl.new against pvl on generated well-formed texts, "
+        "encoder output and the corpus",
+        "For each text both loaders must agree on success/exception class, the new "
+        "result must use exactly the New container classes and have the same items "
+        "at every level, and pvl.new.dumps / every encoder parameterised with the New "
+        "classes must write the same text (or refuse alike) as the default family. "
+        "All corpus files run on every invocation; sampled otherwise.",
+        "Trusted: pvl.loads as the reference side (its own correctness is C03); "
+        "texts for which the default loader repairs empty values are outside "
+        "'well-formed' and skipped.",
+        "DESIGN.md 4/C19",
+    ),
+})
+
 PENDING = {}   # id -> reason while a check is not built yet
 
 
